@@ -418,7 +418,7 @@ func TestC17PeerWriter(t *testing.T) {
 	rep.Extra["pw_pieces_written"] = st.served
 	rep.Extra["pw_repeat_requests_rejected_by_writer"] = st.dupRejected
 	if vs.empty() && (st.atCap == 0 || st.cancelled == 0 || st.flushed == 0 || st.served == 0) {
-		core.HarnessError("vacuous peerwriter run: %+v", st)
+		rep.Vacuous("vacuous peerwriter run: %+v", st)
 	}
 	vs.flush(rep)
 	rep.Finish()
